@@ -225,12 +225,7 @@ func c04R1(c *kit.Ctx, m *storeModel, r1 *kit.Rule) {
 		if f.Body == nil || f.Lit != nil {
 			continue
 		}
-		var begin *ast.CallExpr
-		for _, call := range f.AllCalls(false) {
-			if kit.CallIs(f.Info(), call, qBegin) {
-				begin = call
-			}
-		}
+		begin := beginCallOf(f)
 		if begin == nil {
 			continue
 		}
@@ -238,9 +233,7 @@ func c04R1(c *kit.Ctx, m *storeModel, r1 *kit.Rule) {
 		info := f.Info()
 		// the tx variable
 		var txVar types.Object
-		if as, ok := c.P.Parent(f.File, begin).(*ast.AssignStmt); ok && len(as.Lhs) > 0 {
-			txVar = kit.ObjOf(info, as.Lhs[0])
-		}
+		txVar = txVarOfBegin(f, begin)
 		if txVar == nil {
 			c.Fatalf("R1: cannot find the variable receiving Begin() in %s", f.Name)
 		}
